@@ -1,0 +1,16 @@
+//go:build verif
+
+package detector
+
+// Re-exports of unexported Detector steps for the verification harness (/verif, property C06).
+// Nothing here changes behaviour; the file is compiled only with -tags verif.
+
+func (this *Detector) VerifGetMatrixCenter() (int, int) {
+	p := this.getMatrixCenter()
+	return p.getX(), p.getY()
+}
+
+func (this *Detector) VerifGetFirstDifferent(x, y int, color bool, dx, dy int) (int, int) {
+	p := this.getFirstDifferent(newPoint(x, y), color, dx, dy)
+	return p.getX(), p.getY()
+}
